@@ -142,6 +142,32 @@ func isNil(v reflect.Value) bool {
 	}
 }
 
+// detachValue returns rv without any tie to the storage it was read from.
+// Script values are bound and passed by value: a name or parameter that
+// received a slice element must not change when the slice is modified later.
+func detachValue(rv reflect.Value) reflect.Value {
+	if !rv.CanAddr() {
+		return rv
+	}
+	if rv.Kind() == reflect.Interface {
+		if rv.IsNil() {
+			return nilValue
+		}
+		return rv.Elem()
+	}
+	switch rv.Kind() {
+	case reflect.Bool, reflect.String,
+		reflect.Int, reflect.Int8, reflect.Int16, reflect.Int32, reflect.Int64,
+		reflect.Uint, reflect.Uint8, reflect.Uint16, reflect.Uint32, reflect.Uint64, reflect.Uintptr,
+		reflect.Float32, reflect.Float64, reflect.Complex64, reflect.Complex128,
+		reflect.Slice, reflect.Map, reflect.Ptr, reflect.Chan, reflect.Func:
+		value := reflect.New(rv.Type()).Elem()
+		value.Set(rv)
+		return value
+	}
+	return rv
+}
+
 const int64CacheMin = -1
 const int64CacheMax = 4095
 
